@@ -150,6 +150,10 @@ CORPUS = [
     (["a/", "a/b"], "a/", "/", "", 1000),
     (["b/a/x", "b/a-"], "b/", "/", "b/a-", 1000),
     ([".sgwtmp/x", "a"], "", "", "", 1000),
+    # a prefix that leads through a file (the file system answers "not a directory"): nothing is listed, no error
+    (["a/b", "c"], "a/b/", "", "", 1000),
+    (["a/b", "c"], "a/b/c/d", "/", "", 1000),
+    (["top", "a/b"], "top/", "/", "", 10),
     # names that merely begin like the bookkeeping directory are ordinary keys
     ([".sgwtmp_old/report", ".sgwtmp2/x", "a"], ".sgwtmp_old/", "", "", 1000),
     ([".sgwtmp_old/sub/r", ".sgwtmp_old/t"], ".sgwtmp_old/sub/", "/", "", 1000),
